@@ -295,7 +295,7 @@ def plainPayloadsB (cfg : LeafCfg) (scr : LeafScript) : Bool :=
       | .error _ => true
 
 /-- all property predicates for one run, on an observation `o` -/
-def judgeRun (env : Env) (ctx0 : Ctx) (root : NodeId) (vis : NodeId → Nat) (cancelFree : Bool)
+def judgeRun (fuel : Nat) (env : Env) (ctx0 : Ctx) (root : NodeId) (vis : NodeId → Nat) (cancelFree : Bool)
     (o : RunObs) (flat ref : RunObs) (allPrep : Bool := true) : List (String × Bool) :=
   let segs := segments (noWaits o.trace)
   let leafSegs := segs.filterMap fun (k, seg) =>
@@ -308,7 +308,7 @@ def judgeRun (env : Env) (ctx0 : Ctx) (root : NodeId) (vis : NodeId → Nat) (ca
         | _, _ => true)
   let c02 := leafSegs.all (fun (cfg, scr, _, seg) => c02Bounds cfg scr seg)
     && (!cancelFree || leafSegs.all (fun (cfg, scr, _, seg) => c02Visit cfg scr seg))
-  let c03 := !cancelFree || Spec.c03 env root vis FUEL o
+  let c03 := !cancelFree || Spec.c03 env root vis fuel o
   let c04 := !cancelFree || Spec.c04 env o
   -- C05 speaks of non-batch nodes and flows; a batch node run directly is judged by C11
   let c05 := (match env.arena root with | .batch _ => true | _ => false) || (Spec.c05 env ctx0 o ref && (ctx0 != .live || Spec.c05Wait env o))
@@ -375,10 +375,12 @@ def process (sc : ScJ) (obs : ObsJ) : Except String Verdict := do
         match ar.find? (fun p => p.1 == n) with | some p => p.2 | none => .flow none []
       let env : Env := { kind, arena := arenaFn, leafBeh, batchBeh }
       let st0 : RunSt := { ctx := ctx0, visits := vis }
-      let r := runNode env FUEL root 0 st0
+      -- the recursion depth grows with the length of the path: long scripted loops get the fuel they need
+      let fuel := max FUEL (3 * sc.leafScripts.length + 200)
+      let r := runNode env fuel root 0 st0
       let m := obsOf r
-      let flat := obsOf (Flat.run env (FUEL * 10) root 0 st0)
-      let ref := obsOf (runNode (noCancelEnv env) FUEL root 0 { ctx := .live, visits := vis })
+      let flat := obsOf (Flat.run env (fuel * 10) root 0 st0)
+      let ref := obsOf (runNode (noCancelEnv env) fuel root 0 { ctx := .live, visits := vis })
       if m.out == .fuel then throw "model out of fuel"
       let (ij, rest) ← match implRuns with
         | ij :: rest => pure (ij, rest)
@@ -393,8 +395,8 @@ def process (sc : ScJ) (obs : ObsJ) : Except String Verdict := do
       ms := ms.push m
       -- `c18Followed` reads visits off the callback trace: every leaf must have a prep callback (`C18.c18Followed_bridge`'s `hprep`)
       let allPrep := nodes.all fun p => match p.2 with | .leaf c => c.prepS != .absent | _ => true
-      for (k, b) in judgeRun env ctx0 root vis cancelFree io flat ref allPrep do spec := andAll spec k b
-      for (k, b) in judgeRun env ctx0 root vis cancelFree m flat ref allPrep do specModel := andAll specModel k b
+      for (k, b) in judgeRun fuel env ctx0 root vis cancelFree io flat ref allPrep do spec := andAll spec k b
+      for (k, b) in judgeRun fuel env ctx0 root vis cancelFree m flat ref allPrep do specModel := andAll specModel k b
       -- non-triviality per property (measured on the model's run)
       let tr := m.trace
       let nExec := (tr.filter isExecEv).length
